@@ -1085,7 +1085,21 @@ def iter_view(ex, v):
         n = seq_len(v)
         if isinstance(n, int):
             items = v.concrete_items()
-            return n, (lambda i: items[i])
+
+            def at_concrete(i):
+                if isinstance(i, int):
+                    return items[i]
+                if not items:
+                    raise Unsupported("symbolic index into an empty sequence")
+                it = i.t if isinstance(i, Sym) else i
+                if all(type(x) is int for x in items) and all(x == items[0] + j for j, x in enumerate(items)):
+                    return Sym(z3.simplify(it + items[0]), "int")  # consecutive integers: closed form (valid for indices in range)
+                val = items[-1]
+                for k in range(len(items) - 2, -1, -1):
+                    val = ite(ex, it == k, items[k], val)
+                return val
+
+            return n, at_concrete
         src = v.copy()
         return n, (lambda i: seq_get(ex, src, _ix(i)))
     if isinstance(v, Arr2V):
